@@ -14,7 +14,7 @@ set_option linter.unusedSimpArgs false
 
 namespace Anko.C07
 open Anko
-variable [FOps]
+variable [FOps] [Prov]
 
 /-! ### operand lists: left to right, once each, cut at the first error -/
 
